@@ -18,27 +18,29 @@ from collections import Counter
 TARGET = "puan.logic.plog"
 CONTRACTS = {
     # ---- constructors (C04: every connective is its kernel form) ----------------------------------------
-    "AtLeast.__init__": {"props": ["C03", "C04", "C05", "C06", "C08", "C10", "C15", "C16"], "group": "E0",
+    "AtLeast.__init__": {"props": ["C01", "C03", "C04", "C05", "C06", "C07", "C08", "C10", "C14", "C15", "C16", "C18"], "group": "E0",
                          "attrs_for": {"C03": ["value", "sign", "propositions", "variable"], "C04": ["value", "sign", "propositions", "variable"],
                                        "C06": ["value", "sign", "propositions", "variable"], "C08": ["value", "sign", "propositions", "variable"],
-                                       "C10": ["value", "sign", "propositions", "variable"], "C15": ["generated_id", "variable"]},
+                                       "C10": ["value", "sign", "propositions", "variable"], "C15": ["generated_id", "variable"],
+                                       "C01": ["value", "sign", "propositions", "variable"], "C07": ["value", "sign", "propositions", "variable"],
+                                       "C14": ["value", "sign", "propositions", "variable"], "C18": ["value", "sign", "propositions", "variable", "generated_id"]},
                          "why": "sign default = + iff value > 0; sign in {-1,+1} or raise; children = fresh sorted list, "
                                 "strings become boolean variables; own variable bounds in {(0,0),(0,1),(1,1)}"},
-    "AtMost.__init__": {"props": ["C04"], "why": "at most k  ==  -sum >= -k"},
-    "All.__init__": {"props": ["C04", "C18"], "why": "conjunction == sum >= number of distinct children"},
-    "Any.__init__": {"props": ["C04"], "why": "disjunction == sum >= 1"},
-    "Xor.__init__": {"props": ["C04"], "why": "exactly one == (sum >= 1) and (at most 1)"},
-    "XNor.__init__": {"props": ["C04"], "why": "not exactly one == not(sum >= 1) or not(at most 1)"},
-    "Imply.__init__": {"props": ["C04"], "why": "c -> q == not(c) or q; atoms are wrapped in All() before negation"},
-    "Not.__new__": {"props": ["C04", "C05"], "why": "Not(p) == negate(p), atoms wrapped in All()"},
+    "AtMost.__init__": {"props": ["C04", "C16"], "why": "at most k  ==  -sum >= -k"},
+    "All.__init__": {"props": ["C04", "C05", "C14", "C16", "C18"], "why": "conjunction == sum >= number of distinct children"},
+    "Any.__init__": {"props": ["C04", "C14", "C16"], "why": "disjunction == sum >= 1"},
+    "Xor.__init__": {"props": ["C04", "C14", "C16"], "why": "exactly one == (sum >= 1) and (at most 1)"},
+    "XNor.__init__": {"props": ["C04", "C16"], "why": "not exactly one == not(sum >= 1) or not(at most 1)"},
+    "Imply.__init__": {"props": ["C04", "C16"], "why": "c -> q == not(c) or q; atoms are wrapped in All() before negation"},
+    "Not.__new__": {"props": ["C04", "C05", "C16"], "why": "Not(p) == negate(p), atoms wrapped in All()"},
     "Imply.from_cicJE": {"props": ["C04"], "why": "rule-type table, relation table (default ALL), 1-vs-many wrapping"},
     "from_json": {"props": ["C04", "C16"], "why": "type string dispatches to the class of that name"},
     # ---- structure ---------------------------------------------------------------------------------------
-    "AtLeast.id": {"props": ["C01", "C03", "C10", "C16"], "why": "id of a node is the id of its variable"},
-    "AtLeast.bounds": {"props": ["C01", "C03", "C06", "C07", "C08"], "why": "bounds of a node are its variable's bounds"},
+    "AtLeast.id": {"props": ["C01", "C03", "C04", "C05", "C06", "C07", "C08", "C10", "C14", "C15", "C16", "C18"], "why": "id of a node is the id of its variable"},
+    "AtLeast.bounds": {"props": ["C01", "C03", "C04", "C05", "C06", "C07", "C08", "C10", "C15"], "why": "bounds of a node are its variable's bounds"},
     "AtLeast.compound_propositions": {"props": ["C01", "C03", "C04", "C05", "C08", "C10"], "why": "children that are not puan.variable"},
     "AtLeast.atomic_propositions": {"props": ["C01", "C03", "C04", "C05", "C08", "C10"], "why": "children that are puan.variable"},
-    "AtLeast.flatten": {"props": ["C01", "C03", "C10", "C15"], "why": "self + all descendants, de-duplicated, sorted"},
+    "AtLeast.flatten": {"props": ["C01", "C03", "C04", "C05", "C10", "C14", "C15"], "why": "self + all descendants, de-duplicated, sorted"},
     "AtLeast._dependencies": {"props": ["C10"], "why": "complete edge relation: (id, ids of all children) for every compound"},
     "AtLeast.errors": {"props": ["C10"],
                        "why": "4 labels <-> 4 checks; cycle check = TopologicalSorter(dict(_dependencies())).prepare() with exception => True; "
@@ -49,15 +51,15 @@ CONTRACTS = {
     "AtLeast._id_generator": {"props": ["C10", "C16"], "why": "generated id = prefix + sha256(children ids + value + sign): deterministic in the definition"},
     "AtLeast.__eq__": {"props": ["C09", "C10"], "why": "equality used by ==; (its adequacy as a de-duplication key is judged by E7 under C10)"},
     # ---- evaluation kernel -------------------------------------------------------------------------------
-    "AtLeast._equation_mm": {"props": ["C06"], "split": "sign", "why": "exact range of sign*sum over the children's box"},
-    "AtLeast.equation_bounds": {"props": ["C06"], "why": "range of sign*sum - value"},
+    "AtLeast._equation_mm": {"props": ["C06", "C10"], "split": "sign", "why": "exact range of sign*sum over the children's box"},
+    "AtLeast.equation_bounds": {"props": ["C06", "C10"], "why": "range of sign*sum - value"},
     "AtLeast.is_tautology": {"props": ["C06"], "why": "min(sign*sum) - value >= 0"},
     "AtLeast.is_contradiction": {"props": ["C06"], "why": "max(sign*sum) - value <= -1"},
     "AtLeast.assume": {"props": ["C01", "C03", "C04", "C05", "C06", "C07"], "split": "sign",
                        "why": "K1 own-id override, K2 constant short-circuit, K3 all children same dict, K4 interval kernel, "
                               "K5 keeps value/sign/id, H4 no child loses its definition"},
-    "AtLeast.evaluate": {"props": ["C01", "C03", "C04", "C05"], "why": "evaluate = entry of own id in evaluate_propositions"},
-    "AtLeast.evaluate_propositions": {"props": ["C01", "C03", "C04", "C05"], "why": "{x.id: out(x.bounds)} over flatten() of the assumed model"},
+    "AtLeast.evaluate": {"props": ["C01", "C03", "C04", "C05", "C06", "C07"], "why": "evaluate = entry of own id in evaluate_propositions"},
+    "AtLeast.evaluate_propositions": {"props": ["C01", "C03", "C04", "C05", "C06", "C07"], "why": "{x.id: out(x.bounds)} over flatten() of the assumed model"},
     "AtLeast.reduce": {"props": ["C08"], "split": "sign",
                        "why": "R1 own constant; R2 children reduced; R3 kernel; R4 constant result; R5 threshold minus sign*constants"},
     # ---- polyhedron bridge (C01) and solver bridge (C15) -----------------------------------------------------
